@@ -25,7 +25,12 @@ CFG = {
             "known FourCCs + their 32 one-bit neighbours + 0..130 + boundary + PRNG u32s, all 19 mask rows + other bit "
             "counts + one-bit perturbations of every field + PRNG masks; D/E: 73 formats x every width and every "
             "height 1..32 (quick: paired, plus all 6x6 small sizes; thorough: full 32x32 grid) x colour formats; "
-            "T: every encodable format x 12 colour formats x 4 dithering modes x sizes, extra weight on RGBA F32/U16; "
+            "R: rectangle decodes (decode_rect / Decoder::read_surface_rect) for 73 formats x surface heights with "
+            "every residue modulo the block height / chroma sub-sampling (below one period and beyond two) x every "
+            "bottom edge x tops on and off line boundaries, the whole surface, PRNG rects up to 40x40, rects outside; "
+            "T: every encodable format x 12 colour formats x 4 dithering modes x sizes, extra weight on RGBA F32/U16, "
+            "and every format x all 4 compression qualities (Fast .. Unreasonable) x RGBA U8/U16/F32 + a random "
+            "colour on images up to 16x16; "
             "non-trivial = a format was detected / codec ran (result not an error); distinct = distinct case lines",
     "assumptions": [
         "the implementation equals the model off the generated cases (tables: none are off the cases, the table "
@@ -86,6 +91,14 @@ def classify(c, r):
         return f"H {t[1]} " + ("detected" if not f.startswith("F:E:") else f)
     if k == "M":
         return "M"
+    if k == "R":
+        # where the bottom edge of the rectangle lies (whole surface / inside), and the result
+        try:
+            sh, y, h = int(t[3]), int(t[5]), int(t[7])
+            where = "to-bottom" if y + h == sh else "inside" if y + h < sh else "outside"
+        except Exception:
+            where = "?"
+        return "R " + r.split()[0] + " " + where
     if k in ("D", "E"):
         return f"{k} " + r.split()[0] + (" " + r.split()[1].split(":")[0] if r.startswith("err") else "")
     if k == "T":
@@ -94,6 +107,7 @@ def classify(c, r):
             return "T " + r
         # which groups are advertised and whether dithering changed anything
         changed = "changed" if ("C=0" in p or "A=0" in p or "CA=0" in p) else "same"
-        return f"T {p[0]} {changed}"
+        q = f" q={t[6]}" if len(t) == 7 else ""
+        return f"T {p[0]} {changed}{q}"
     return k
 
